@@ -175,7 +175,7 @@ def solve(pc, goal, timeout_ms, want_model=True):
     return 'unknown', None, 'z3+cvc5', dt + dt2
 
 
-def candidate_search(pc, goal, bound=4, timeout_ms=15000):
+def candidate_search(pc, goal, bound=3, timeout_ms=40000):
     s = z3.Solver()
     s.set('timeout', timeout_ms)
     consts = {}
@@ -196,26 +196,36 @@ def candidate_search(pc, goal, bound=4, timeout_ms=15000):
         if name.endswith('.len'):
             s.add(cst <= bound)
 
-    def inst(f):
-        if z3.is_quantifier(f) and f.is_forall():
+    import itertools as it
+    dom = list(range(-1, bound + 2))
+
+    def expand(f, depth=0):
+        """replace every integer quantifier by its instances over the small domain (search only: unsound as a proof)"""
+        if z3.is_quantifier(f):
             n = f.num_vars()
-            if n > 2 or any(f.var_sort(i) != z3.IntSort() for i in range(n)):
-                return []
-            import itertools as it
-            out = []
-            for vals in it.product(range(-1, bound + 2), repeat=n):
-                out.append(z3.substitute_vars(f.body(), *[z3.IntVal(v) for v in reversed(vals)]))
-            return out
-        if z3.is_and(f):
-            r = []
-            for ch in f.children():
-                r += inst(ch)
-            return r
-        return [f] if not _has_quantifier(f) else []
+            if n > 2 or any(f.var_sort(i) != z3.IntSort() for i in range(n)) or depth > 2:
+                return None
+            insts = []
+            for vals in it.product(dom, repeat=n):
+                g = expand(z3.substitute_vars(f.body(), *[z3.IntVal(v) for v in reversed(vals)]), depth + 1)
+                if g is None:
+                    return None
+                insts.append(g)
+            return z3.And(*insts) if f.is_forall() else z3.Or(*insts)
+        if z3.is_app(f) and f.num_args() > 0 and _has_quantifier(f):
+            kids = [expand(c, depth) for c in f.children()]
+            if any(k is None for k in kids):
+                return None
+            return f.decl()(*kids)
+        return f
     for p in pc:
-        for g in inst(p):
+        g = expand(p)
+        if g is not None:
             s.add(g)
-    s.add(z3.Not(strip_foralls(goal)))
+    ng = expand(z3.Not(strip_foralls(goal)))
+    if ng is None:
+        return None
+    s.add(ng)
     if s.check() == z3.sat:
         return s.model()
     return None
@@ -516,6 +526,10 @@ class Verifier:
                     outcome = ('return', None)
                 except _Return as r:
                     outcome = ('return', r.value)
+                except (E._Continue, E._Break):
+                    if not c.block:
+                        raise
+                    outcome = ('return', None)      # a loop body verified as a block: continue/break end the iteration
                 except PyRaise as e:
                     outcome = ('raise', e)
                 if outcome[0] == 'return':
@@ -552,7 +566,7 @@ class Verifier:
                 ob.info['case'] = ci
                 ob.info['witness'] = dict(eng.witness)
                 ob.info['spec_env'] = {k: snapshot_value(v) for k, v in eng.spec_env.items()
-                                        if isinstance(v, (Sym, int, str, bool, dict, list, tuple, set))}
+                                        if isinstance(v, (Sym, SymSeq, int, str, bool, dict, list, tuple, set))}
                 if ob.name not in groups:
                     groups[ob.name] = []
                     order.append(ob.name)
